@@ -70,8 +70,8 @@ OpsTOp(i) == [op |-> "OpsT", id |-> i]
 NameOps == { OpsOp(n) : n \in Names } \cup { OpsTOp(i) : i \in 0..5 } \cup { OpsTOp(-1), OpsTOp(99) }
 NameScripts == { <<a, b>> : a \in NameOps, b \in NameOps } \cup { <<a, b, c>> : a \in {OpsOp("gnutls"), OpsTOp(2)}, b \in NameOps, c \in {OpsOp("openssl"), OpsOp("zz")} }
 
-C12Scripts == VerdictScriptsOK \cup AlterScripts \cup TokenScripts \cup RandScripts \cup NameScripts
-MCSpec == ISpecWith(C12Scripts)
+\* (families, not their union: see ISpecFam in Interp.tla)
+MCSpec == ISpecFam(<<VerdictScriptsOK, AlterScripts, TokenScripts, RandScripts, NameScripts>>)
 
 \* on the specification: switching happens only on exact names / ids of compiled providers
 SwitchOnlyExact ==
